@@ -57,6 +57,10 @@ _REAL = {
     "chmod": os.chmod,
     "utime": os.utime,
     "scandir": os.scandir,
+    "chown": os.chown,
+    "fchmod": os.fchmod,
+    "fchown": os.fchown,
+    "readlink": os.readlink,
     "webbrowser_get": webbrowser.get,
 }
 FD_BASE = 1 << 20      # simulated file descriptors live above any real one
@@ -650,6 +654,30 @@ class SimWorld:
             return _REAL["chmod"](path, mode, **kw)
         return None
 
+    def chown(self, path, uid, gid, **kw):
+        p = self.resolve(path) if not isinstance(path, int) else None
+        if p is None and not (isinstance(path, int) and path in self.fds):
+            return _REAL["chown"](path, uid, gid, **kw)
+        return None
+
+    def fchmod(self, fd, mode):
+        if fd in self.fds:
+            return None
+        return _REAL["fchmod"](fd, mode)
+
+    def fchown(self, fd, uid, gid):
+        if fd in self.fds:
+            return None
+        return _REAL["fchown"](fd, uid, gid)
+
+    def readlink(self, path, **kw):
+        p = self.resolve(path)
+        if p is None:
+            return _REAL["readlink"](path, **kw)
+        if p in self.files or p in self.dirs:
+            raise OSError(errno.EINVAL, "Invalid argument (not a symbolic link)", p)
+        raise FileNotFoundError(errno.ENOENT, "No such file or directory", p)
+
     def utime(self, path, times=None, **kw):
         p = self.resolve(path) if not isinstance(path, int) else None
         if p is None:
@@ -751,6 +779,10 @@ class SimWorld:
         os.chmod = self.chmod
         os.utime = self.utime
         os.scandir = self.scandir
+        os.chown = self.chown
+        os.fchmod = self.fchmod
+        os.fchown = self.fchown
+        os.readlink = self.readlink
         import tempfile
         self._saved_tempdir = tempfile.tempdir
         tempfile.tempdir = self.tmp          # tempfile.gettempdir()/mkstemp()/NamedTemporaryFile land in SimFS
@@ -792,6 +824,10 @@ class SimWorld:
         os.chmod = _REAL["chmod"]
         os.utime = _REAL["utime"]
         os.scandir = _REAL["scandir"]
+        os.chown = _REAL["chown"]
+        os.fchmod = _REAL["fchmod"]
+        os.fchown = _REAL["fchown"]
+        os.readlink = _REAL["readlink"]
         import tempfile
         tempfile.tempdir = self._saved_tempdir
         tempfile._name_sequence = self._saved_names
